@@ -562,6 +562,12 @@ class Repo:
                 continue
         return out
 
+    def module_level_name(self, module, name):
+        """is ``name`` bound by an assignment at the top level of the module?"""
+        tree = self.modules[module]['tree']
+        return any(isinstance(st, (ast.Assign, ast.AnnAssign, ast.AugAssign)) and any(isinstance(x, ast.Name) and x.id == name and isinstance(x.ctx, ast.Store) for x in ast.walk(st))
+                   for st in tree.body)
+
     def private_sentinels(self):
         """module-private names bound once to a fresh ``object()``: markers for "no value given".
         Modelling assumption (stated in the evidence): a value that enters through a parameter
@@ -742,6 +748,29 @@ class Repo:
                                 right = a.value
                     if isinstance(right, ast.Dict):
                         out.append(Template(fi, n, right))
+        # a hole filled with one of a few literal texts chosen by a condition: one template per text
+        expanded = []
+        for t in out:
+            alts = None
+            for key, v in t.values.items():
+                texts = _literal_alternatives(v)
+                if texts is not None and len(texts) > 1 and key in t.holes:
+                    alts = (key, texts)
+                    break
+            if alts is None:
+                expanded.append(t)
+                continue
+            key, texts = alts
+            for i, txt in enumerate(texts):
+                new_text = t.text.replace('%%(%s)s' % key, txt.replace('%', '%%'))
+                fake = ast.BinOp(left=ast.Constant(value=new_text), op=ast.Mod(), right=t.node.right)
+                ast.copy_location(fake, t.node)
+                ast.copy_location(fake.left, t.node)
+                mapping = ast.Dict(keys=[ast.Constant(value=k) for k in t.values if k != key], values=[v_ for k, v_ in t.values.items() if k != key])
+                tv = Template(t.func, fake, mapping)
+                tv.variant = '%s=%r' % (key, txt[:30])
+                expanded.append(tv)
+        out = expanded
         # de-duplicate (ast.walk of outer function also sees nested ones)
         uniq = {}
         for t in out:
@@ -756,6 +785,18 @@ class Repo:
 
 
 HOLE = re.compile(r'%\((\w+)\)([sdi])')
+
+
+def _literal_alternatives(v, limit=4):
+    """[text, ...] when the expression is a string literal or a conditional expression whose arms
+    are (recursively) string literals"""
+    if isinstance(v, ast.Constant) and isinstance(v.value, str):
+        return [v.value]
+    if isinstance(v, ast.IfExp):
+        a, b = _literal_alternatives(v.body, limit), _literal_alternatives(v.orelse, limit)
+        if a is not None and b is not None and len(a) + len(b) <= limit:
+            return a + b
+    return None
 
 
 def _assembled_texts(func, e, limit=8):
